@@ -208,3 +208,20 @@ def register_all(prop):
                "bytes or a replaced work connection; distinct = distinct (options, (user, proxy, length) sequence)."),
          assumptions=["loopback only, 8 MiB socket buffers at the harness ends", "delivery asserted only for light-load scripts; bursty scripts check inclusion only",
                       "the 30 s idle eviction of per-user sockets is not exercised"])
+    prop("C02", qshards=16, tshards=16, qlimit=600, tlimit=3600,
+         rule=("http_fidelity: real in-process frps + frpc; rapid draws 1..2 routes (http proxy, or the client plugins http2http / http2https behind an http "
+               "proxy and https2http / https2https behind an https proxy; encryption, compression, limiter wrapper, tcpMux; requestHeaders.set, "
+               "responseHeaders.set, hostHeaderRewrite) and 1..3 concurrent keep-alive user connections of 1..6 requests written byte by byte by the harness: "
+               "method, percent-encoded path segments, raw query, 0..6 headers (mixed case, multi-valued, empty, 16 KB, obs-text), user-sent X-Forwarded-For "
+               "lines, a Connection-nominated header, body none / Content-Length / chunked up to 1 MiB with drawn write sizes; the response the recording "
+               "backend must produce travels in a request header (status from 18 codes, 0..5 headers, body Content-Length / chunked / close-delimited). "
+               "Oracle: reference model of the declared rewrites - identical method, request target, body digest; header multimap = user's + set-headers, "
+               "Host per rewrite, X-Forwarded-For = user's values + user's address, nominated hop-by-hop header removed; user receives the scripted status, "
+               "the backend's headers + configured response headers, identical body; served by the route's own backend exactly once. non-trivial = a body, "
+               "a percent-encoding, a rewrite, X-Forwarded-For, or a request at position >= 2 of its connection; distinct = distinct (routes, request shapes). "
+               "upgrade_connect_errors: a WebSocket-style Upgrade or a CONNECT through the vhost port followed by generated duplex byte streams (0..300 KB, drawn "
+               "write sizes) and a close by either side - streams identical, request line seen by the backend identical, the peer closed within bounds; "
+               "backend unreachable -> not-found page within 3 s; backend that never answers with vhostHTTPTimeout 1..2 s -> 504 within timeout + 3 s, "
+               "while 0..3 requests to another proxy succeed within 3 s."),
+         assumptions=["HTTP/1.1 framing at both ends (h2c is covered for routing/auth in C06/C07)", "queries with ';' or invalid escapes and paths needing normalisation are outside the generated domain (the standard library rewrites them)",
+                      "Forwarded / X-Forwarded-Host / X-Forwarded-Proto sent by the user are not generated"])
